@@ -64,17 +64,22 @@ def authority(pid):
         def consts(maxapplied):
             return dict(Kind=names, Routable=routable, StoreKind=store, RejectOnly=reject_only, ResetKind=reset, Auth=AUTH_CLASSES, MaxApplied=maxapplied)
 
-        def gen(name, tiers, maxapplied, shards, rej):
-            return dict(name=name, tiers=tiers, consts=consts(maxapplied), harness=[dict(chain="app", MaxApplied=maxapplied, Kind=names)],
+        def gen(name, tiers, maxapplied, shards, rej, sdkaddr=False):
+            hs = [dict(chain="app", MaxApplied=maxapplied, Kind=names)]
+            if sdkaddr:
+                # same graph once more in a process without fx-core's 20-byte address verifier: longer look-alike
+                # authorities then pass stateless validation and must be refused by the handlers themselves
+                hs.append(dict(chain="sdkaddr", MaxApplied=maxapplied, Kind=names, AddrCfg="sdk"))
+            return dict(name=name, tiers=tiers, consts=consts(maxapplied), harness=hs,
                         shards=shards, rej_sample=rej, may_never_succeed=())
 
         # MaxApplied = n: states in which at most n privileged operations have taken effect are expanded
         mc = [dict(name="a0", tiers=["dev", "quick", "thorough"], consts=consts(0)),
               dict(name="a1", tiers=["quick", "thorough"], consts=consts(1)),
               dict(name="a2", tiers=["thorough"], consts=consts(2))]
-        gens = [gen("dev", ["dev"], 0, 1, 0),
+        gens = [gen("dev", ["dev"], 0, 1, 0, sdkaddr=True),
                 # every kind x authority class x payload class in the initial state, exhaustively
-                gen("a0", ["quick", "thorough"], 0, 1, 0),
+                gen("a0", ["quick", "thorough"], 0, 1, 0, sdkaddr=True),
                 # the same after each single privileged operation has taken effect (rejections sampled in quick)
                 gen("a1", ["quick"], 1, 14, 60),
                 gen("a1", ["thorough"], 1, 16, 0),
@@ -88,6 +93,7 @@ def authority(pid):
                 "authority classes: gov module account (canonical lower-case bech32); distribution module account; a user; empty; the gov address as 0x hex; the gov address bytes with bech32 prefix cosmos; valid chain-prefix bech32 of 21- and 32-byte addresses that end / start with the 20 gov bytes (other accounts). Authority identity is the decoded account: the upper-case bech32 spelling of the gov address (accepted by x/evm CallContract via strings.EqualFold, refused by the other handlers) decodes to the governance account and is not treated as a foreign authority",
                 "payload class 'reset' (kinds with a delete/reset form: " + ", ".join(reset) + "): zero-value custom params / removal of a registered alias / removal of a disabled-precompile entry / overwrite of an existing raw store value, each against a target that exists so the form would take effect",
                 "payload classes: one valid and one invalid payload per kind (invalid = stateless validation failure or handler-level failure, for MsgUpdateStore an unknown store space in the SECOND entry)",
+                "the initial-state sweep is executed twice: with the production address configuration (fx prefix, 20-byte address verifier: longer look-alike addresses already fail stateless validation) and in a process with the SDK default address configuration (no verifier, as the repository's keeper tests run), where they reach the handlers",
                 "third-party kinds (cosmos-sdk, ibc, ethermint) are driven with non-governance authorities only (no payload generator): " + ", ".join(reject_only),
                 "kinds registered in the interface registry without a handler on the router (legacy fx gov messages) must be rejected for every authority",
                 "world: test genesis, targets (token pairs, ERC-20 contracts, alias coin) created through MsgRegisterCoin with the governance authority and keeper-level contract deployment",
